@@ -197,6 +197,33 @@ Example parse_examples :
   parse (fun _ => 2%nat) [101; 769; 60; 53] = PErr.
 Proof. repeat split. Qed.
 
+(* T4 trim with a pattern (incl. self-overlapping patterns): trim is trim_end AFTER trim_start -- the result of
+   core.string trim is exactly trim_end_matches p (trim_start_matches p s), a well-formed string that is a
+   contiguous slice of s with whole copies of the pattern removed on both sides; the unwrap never fails *)
+Theorem trim_is_end_after_start : forall k s p, ks_wf k -> ks_as_str k = Ok s -> valid_utf8 p ->
+  exists k' n m, op_trim k p = VStr k' /\ ks_wf k' /\
+    ks_as_str k' = Ok (trim_end_matches p (trim_start_matches p s)) /\
+    s = repeat_bytes p n ++ trim_end_matches p (trim_start_matches p s) ++ repeat_bytes p m.
+Proof. exact trim_lemma. Qed.
+Print Assumptions trim_is_end_after_start.
+
+Theorem trim_matches_laws : forall p s,
+  (exists n, s = repeat_bytes p n ++ trim_start_matches p s) /\
+  (exists n, s = trim_end_matches p s ++ repeat_bytes p n) /\
+  (p <> [] -> is_prefix p (trim_start_matches p s) = false) /\
+  trim_start_matches p (trim_start_matches p s) = trim_start_matches p s /\
+  trim_end_matches p (trim_end_matches p s) = trim_end_matches p s.
+Proof.
+  intros p s. split; [apply trim_start_decomp_lemma|]. split; [apply trim_end_decomp_lemma|].
+  split; [apply trim_start_stops|]. split; [apply trim_start_idem_lemma | apply trim_end_idem_lemma].
+Qed.
+Print Assumptions trim_matches_laws.
+
+(* the overlapping case: the ends must not be located independently *)
+Example trim_overlap : trim_end_matches [97; 97] (trim_start_matches [97; 97] [97; 97; 97]) = [97] /\
+  trim_end_matches [97; 97] [97; 97; 97] = [97] /\ trim_start_matches [97; 97] [97; 97; 97] = [97].
+Proof. repeat split. Qed.
+
 (* T6 format_width, arithmetic core: the number of fill copies added is exactly min_width - len as long
    as at most 2^24 fill characters are needed (every alignment) ... *)
 Theorem format_fill_count : forall al num w g, w - g <= 16777216 ->
